@@ -4,6 +4,7 @@ import Just.Model.Signals
 import Just.Model.Args
 import Just.Model.EnvExport
 import Just.Model.Workdir
+import Just.Model.Search
 open Lean
 
 namespace Just.Run
@@ -49,3 +50,8 @@ deriving instance FromJson, ToJson for Search
 deriving instance FromJson, ToJson for Ctx
 deriving instance FromJson, ToJson for Attrs
 end Just.Workdir
+
+namespace Just.Search
+deriving instance FromJson, ToJson for Level
+deriving instance ToJson for Outcome
+end Just.Search
